@@ -92,6 +92,10 @@ def gen(ctx):
         elif r < 0.06:
             labels = []
         cases.append(('rnd', M, labels, blank))
+        if rng.random() < 0.25 and labels and mode < 0.6:
+            # the same integer matrix at an extreme magnitude: costs in the thousands (exp(-cost) underflows) or around 1e-17
+            # (exp(-cost) rounds to 1); order and ties of the costs are unchanged, so the same frames are the most confident
+            cases.append((rng.choice(['x300', 'x1e-17']), M, labels, blank))
     return cases
 
 
@@ -102,7 +106,7 @@ def enc(M):
 def run(ctx):
     from pero_ocr.core import force_alignment as fa
     ctx.rule = ('integer / +inf cost matrices T<=8, C<=5, any blank index, labels of length 1..T+1 with immediate repeats, '
-                'blank among labels, empty labels, many ties; non-trivial = alignable, >1 admissible path and T > len(labels)')
+                'blank among labels, empty labels, many ties; the same matrices scaled to extreme magnitudes (x300, x1e-17) for the position clause; non-trivial = alignable, >1 admissible path and T > len(labels)')
     ctx.assumptions += ['NumPy float arithmetic on small integers and inf is exact (D1)',
                         'numba-compiled compute_update behaves as its Python body (the jitted version is what runs)']
     cases = gen(ctx)
@@ -111,6 +115,25 @@ def run(ctx):
         ctx.evaluations += 1
         ctx.count('kind:' + kind)
         inp = dict(M=enc(M), labels=labels, blank=blank)
+        if kind in ('x300', 'x1e-17'):
+            f = 300.0 if kind == 'x300' else 1e-17
+            Ms = [[x * f for x in row] for row in M]
+            inp['cost_scale'] = f
+            pos = call_positions(fa, Ms, labels, blank)
+            if isinstance(pos, list):
+                try:
+                    seq = [int(x) for x in fa.force_align(np.array(Ms, dtype=float), list(labels), blank, return_seq_positions=True)]
+                    best_cost = [min(row) for row in Ms]
+                    okp = all(a < b for a, b in zip(pos, pos[1:])) and len(pos) == len(labels)
+                    for i, pp in enumerate(pos):
+                        fr = [t for t in range(len(Ms)) if seq[t] == i]
+                        if pp not in fr or any(best_cost[t] < best_cost[pp] for t in fr):
+                            okp = False
+                    if not okp:
+                        ctx.violation('positions:extreme-costs', 'align_text positions are not the most confident aligned frame (costs at an extreme magnitude)', inp, pos)
+                except Exception as e:
+                    ctx.violation('positions-raises:' + type(e).__name__, 'force_align raised %r' % (e,), inp)
+            continue
         got = call_align(fa, M, labels, blank)
         T, C = len(M), len(M[0])
         small = C ** T <= 20000
@@ -179,6 +202,12 @@ def replay(data):
     for v in data.get('violations', []):
         inp = v['input']
         M = [[INF if x is None else x for x in row] for row in inp['M']]
+        if 'cost_scale' in inp:
+            Ms = [[x * inp['cost_scale'] for x in row] for row in M]
+            print('replay', v['key'], 'costs x', inp['cost_scale'], 'positions ->', call_positions(fa, Ms, inp['labels'], inp['blank']),
+                  'frame->char', [int(x) for x in fa.force_align(np.array(Ms, dtype=float), list(inp['labels']), inp['blank'], return_seq_positions=True)],
+                  'best cost per frame', [min(r) for r in Ms])
+            continue
         got = call_align(fa, M, inp['labels'], inp['blank'])
         print('replay', v['key'], inp, '-> force_align:', got, '| brute-force optimum:', brute(M, inp['labels'], inp['blank']))
     return 1 if data.get('violations') else 0
